@@ -28,6 +28,7 @@ void roi(bool on) noexcept;
 void mem_register(const void* p, size_t n, int tag) noexcept;   // live region (tag = driver-chosen object id)
 void mem_dispose(const void* p) noexcept;                       // region becomes "disposed"
 int  mem_state(const void* p) noexcept;                         // 0 unknown, 1 live, 2 disposed
+int  mem_tag(const void* p) noexcept;                           // tag of the region containing p, or -1
 void mem_reset() noexcept;
 struct Uad { int t; const void* addr; int tag; int kind; size_t step; };
 extern std::vector<Uad> g_uad;                                  // use-after-dispose reports of the current execution
